@@ -256,6 +256,9 @@ def run_chunks(ctx, prog):
         if t[2] != DIV:
             return "array count is %s, expected len / N" % sym.show(t[2])
         p = t[1]
+        if p[0] == "call" and p[1].endswith(("const_ptr::<impl *const T>::cast", "mut_ptr::<impl *mut T>::cast")) and len(p) == 4 \
+                and isinstance(p[2], tuple) and len(p[2]) == 2 and p[2][1] == "[T; N]":
+            p = ("cast", "ptr2ptr", "*const [T; N]", p[3])          # `ptr.cast::<[T; N]>()` is `ptr as *const [T; N]`
         if not (p[0] == "cast" and p[1] == "ptr2ptr" and "[T; N]" in p[2]):
             return "array pointer is not an element cast: %s" % sym.show(p)
         b = views.ptr_base(p[3])
